@@ -629,7 +629,16 @@ def r_explicit_void_tag(i):
 
 @rule
 def r_default_on_nullable(i):
-    kind = i.g.choice(['direct', 'via-alias'])
+    kind = i.g.choice(['direct', 'via-alias', 'via-alias-union'])
+    if kind == 'via-alias-union':
+        # a tag default on a field typed by an alias of a nullable union, in a struct with an example
+        # that leaves the field out (the example pass would have to fill the default in)
+        u, a = i.fresh(), i.fresh('Za')
+        i.raw([(0, 'union %s' % u), (1, 'zt1'), (1, 'zt2 String')])
+        i.raw([(0, 'alias %s = %s?' % (a, u))])
+        t, _ = i.via_alias(a, i.g.int(0, 1))
+        i.holder('zf %s = zt1' % t, extra=[(1, 'zg Int32'), (1, 'example default'), (2, 'zg = 1')])
+        return kind
     if kind == 'direct':
         i.holder(i.g.choice(['zf String? = "x"', 'zf Int32? = 3', 'zf Boolean? = true', 'zf String? = null']))
     else:
